@@ -10,7 +10,7 @@ import itertools
 from fractions import Fraction
 
 from .. import gen
-from ..common import cnat, cz, cq, cbool, clist, copt, coq_eval, CoqEvalError
+from ..common import cnat, cz, cq, cbool, clist, copt, safe_coq_eval
 from ..impl import Impl
 
 GEN_FILES = ['VoteConsts.v']
@@ -49,8 +49,8 @@ Definition run_linker (emb : mat) (mask : list bool) (k : nat) (thr : Q) (aps : 
 
 class ModelEval:
     """Evaluates the Coq models. A failure (a translator that failed closed, a model that no longer compiles) is
-    recorded in ctx.notes, makes every later evaluation return None (the model diffs are skipped, the
-    implementation-side oracles still run) and is re-raised at the end of run()."""
+    recorded in ctx.proof_broken (common.safe_coq_eval) and ctx.notes, and makes every later evaluation return None (the
+    model diffs are skipped, the implementation-side oracles still run)."""
 
     def __init__(self, ctx):
         self.ctx = ctx
@@ -61,13 +61,12 @@ class ModelEval:
             return []
         if self.error is not None:
             return None
-        try:
-            return coq_eval(tag, IMPORTS, exprs, prelude=PRELUDE if prelude is None else prelude)
-        except CoqEvalError as e:
-            self.error = e
+        vals = safe_coq_eval(self.ctx, tag, IMPORTS, exprs, prelude=PRELUDE if prelude is None else prelude)
+        if vals is None:
+            self.error = tag
             self.ctx.notes.append('model evaluation failed at %s: the model diffs are skipped, the implementation-side oracles '
-                                  'run without it: %s' % (tag, ' '.join(str(e).split())[-400:]))
-            return None
+                                  'run without it' % tag)
+        return vals
 
 
 def Qf(p):
@@ -336,8 +335,6 @@ def run(ctx, scratch):
                        'NNClassifier / NNLinker use embedding_method=None (embedding methods are oracles of the model)',
                        'the ranking scores, argsort / shuffle / argpartition answers and exp are oracles; their contracts are checked '
                        'on every captured answer']
-    if mev.error is not None:
-        raise mev.error
 
 
 # ----------------------------------------------------------------------------------------------------------
